@@ -78,6 +78,23 @@ impl Rule {
                 .map(|name| name.to_string())
                 .collect::<Vec<_>>(),
         };
+        if let Some(parameters) = &self.parameters {
+            // a map key parameter bound to something else than an integer or a string
+            // can not be substituted
+            for term in &self.head.terms {
+                term.extract_invalid_key_parameters(parameters, &mut invalid_parameters);
+            }
+            for predicate in &self.body {
+                for term in &predicate.terms {
+                    term.extract_invalid_key_parameters(parameters, &mut invalid_parameters);
+                }
+            }
+            for expression in &self.expressions {
+                for op in &expression.ops {
+                    op.extract_invalid_key_parameters(parameters, &mut invalid_parameters);
+                }
+            }
+        }
         let mut invalid_scope_parameters = match &self.scope_parameters {
             None => vec![],
             Some(parameters) => parameters
